@@ -11,19 +11,19 @@ PROP = {
         # printer output only (what the backpressure layer holds as keys): one value through two of the three printers,
         # or a value and a near miss of it (leaf changed, item moved between attribute body and items, record wrapped /
         # unwrapped, slot <-> value, kinds changed)
-        dict(_ENG, name="printed", cases={"quick": 1500, "thorough": 120000}, min_shard=200, gen_args=["printed"]),
+        dict(_ENG, name="printed", cases={"quick": 5000, "thorough": 100000}, min_shard=400, gen_args=["printed"]),
         # the same values / near misses in free layouts: white space, `,` `;` new-line separators, implicit vs braced
         # attribute bodies, `@a` vs `@a()` vs `@a {}`, radix / leading-zero / exponent spellings, quoted vs bare vs escaped strings
-        dict(_ENG, name="layouts", cases={"quick": 1500, "thorough": 120000}, min_shard=200, gen_args=["layouts"]),
+        dict(_ENG, name="layouts", cases={"quick": 6000, "thorough": 120000}, min_shard=400, gen_args=["layouts"]),
         # grammar-generated documents against their own re-print, a free layout of their value, a near miss, a text mutant,
         # another document
-        dict(_ENG, name="texts", cases={"quick": 1500, "thorough": 120000}, min_shard=200, gen_args=["texts"]),
+        dict(_ENG, name="texts", cases={"quick": 6000, "thorough": 120000}, min_shard=400, gen_args=["texts"]),
         # damaged (mostly invalid) texts against themselves, the original, another damaged text
-        dict(_ENG, name="damaged", cases={"quick": 1500, "thorough": 120000}, min_shard=200, gen_args=["damaged"]),
+        dict(_ENG, name="damaged", cases={"quick": 4000, "thorough": 80000}, min_shard=400, gen_args=["damaged"]),
         # consequence: 2..4 values in 1..3 spellings each pushed as keys of `Update`s into the real MapOperationQueue;
         # one entry per value must come out, holding the last update (monitor only: which of two unequal hashes
         # collide inside hashbrown is not modelled)
-        dict(_ENG, name="keys", cases={"quick": 1500, "thorough": 60000}, min_shard=200, gen_args=["keys"],
+        dict(_ENG, name="keys", cases={"quick": 4000, "thorough": 80000}, min_shard=400, gen_args=["keys"],
              modes=["monitor"]),
     ],
     "rule": "a case is one pair of texts: 3 unit questions per text (event stream, parsed value, hasher calls: real vs "
